@@ -76,7 +76,7 @@ def yaql(e):
         return "task_status(%s)" % e["task_status"]
     if "not" in e:
         return "(not %s)" % yaql(e["not"])
-    op = {"eq": "=", "lt": "<", "and": "and", "or": "or", "add": "+"}[e["op"]]
+    op = {"eq": "=", "lt": "<", "and": "and", "or": "or", "add": "+", "div": "/"}[e["op"]]
     return "(%s %s %s)" % (yaql(e["a"]), op, yaql(e["b"]))
 
 
@@ -95,7 +95,7 @@ def jinja(e):
         return "task_status('%s')" % e["task_status"]
     if "not" in e:
         return "(not %s)" % jinja(e["not"])
-    op = {"eq": "==", "lt": "<", "and": "and", "or": "or", "add": "+"}[e["op"]]
+    op = {"eq": "==", "lt": "<", "and": "and", "or": "or", "add": "+", "div": "/"}[e["op"]]
     return "(%s %s %s)" % (jinja(e["a"]), op, jinja(e["b"]))
 
 
